@@ -151,7 +151,7 @@ func TestExecMixedBlocks(t *testing.T) {
 		var minerIDs [][]byte
 		for j := 0; j < 3; j++ {
 			var a common.Address
-			a[0] = byte(rapid.SampledFrom([]int{0x01, 0x30, 0x60, 0x90, 0xf0}).Draw(t, "ownerHigh"))
+			a[0] = byte(rapid.SampledFrom([]int{0x01, 0x01, 0x20, 0x30, 0x60, 0xf0}).Draw(t, "ownerHigh"))
 			a[1], a[18], a[19] = 0xc1, byte(execSalt), byte(j+1)
 			owners = append(owners, a)
 			minerIDs = append(minerIDs, common.Sha256([]byte(fmt.Sprintf("%s-miner-%d", salt, j))))
